@@ -29,7 +29,7 @@ COMPONENTS = {"real": ["BasePrimary.to/_parse_to/register_buffer, all shorthands
               "stub": ["reference state machine of the declared dtype"]}
 ASSUMPTIONS = ["device fixed to CPU", "for float16/bfloat16 only dtypes are checked and exceptions from missing CPU kernels are tolerated (counted)",
                "after a global default change with declared dtype None nothing is asserted about existing buffers until the next simulate"]
-PROBES = ["cast_through_a_two_underlier_derivative", "cast_after_simulate", "resim_after_cast", "to_instrument", "to_tensor", "rejected_non_floating", "default_flip",
+PROBES = ["init_state_tensor_of_other_dtype", "cast_through_a_two_underlier_derivative", "cast_after_simulate", "resim_after_cast", "to_instrument", "to_tensor", "rejected_non_floating", "default_flip",
           "half_tolerated_exception", "register_buffer", "derivative_alias", "computed_outputs_checked", "loss_price_checked", "register_non_floating_buffer"]
 F = {"f16": torch.float16, "bf16": torch.bfloat16, "f32": torch.float32, "f64": torch.float64}
 
@@ -57,6 +57,10 @@ def generate(rng):
     for _ in range(n):
         a = rng.wchoice([(x, 3 if x in ("simulate", "simulate_derivative") else 1) for x in ALPHABET])
         ops.append({"op": a, "torch_seed": rng.seed31(), "n_paths": rng.choice([1, 2, 3])})
+        if a in ("simulate", "simulate_derivative") and rng.chance(0.3):
+            # round-8 mutant C17-n: the initial state arrives as tensors of the OTHER floating dtype; the simulated series still
+            # carry the instrument's dtype
+            ops[-1]["tensor_init"] = True
     prog = {"profile": "c17", "env": {"default_dtype": rng.choice(["float32", "float32", "float64"])}, "world": world, "ops": ops}
     if rng.chance(0.3):
         # a user derivative on two stocks, a second derivative on one of them; casts arrive through either derivative or
@@ -233,10 +237,23 @@ def _execute(program, stats, hist):
                 try:
                     if simulated:
                         stats.fault("F10_aliasing_resimulate")
+                    kw = {}
+                    # only where the instrument DECLARES a dtype: with dtype=None the library lets the series follow the dtype of the
+                    # state tensors the caller passed (torch's own convention); the property speaks of the declared dtype, so that
+                    # case is neither required nor forbidden by it (first run of this workload alarmed on it - my oracle, not pfhedge)
+                    if op.get("tensor_init") and not half and declared is not None:
+                        mine = declared
+                        other = torch.float64 if mine == torch.float32 else torch.float32
+                        rate = pspec["kind"] in ("CIRRate", "VasicekRate")
+                        st = [torch.full((1,), 0.04 if rate else 1.1, dtype=other)]
+                        if pspec["kind"] in ("HestonStock", "RoughBergomiStock"):
+                            st.append(torch.full((1,), 0.04, dtype=other))
+                        kw["init_state"] = tuple(st)
+                        stats.probe("init_state_tensor_of_other_dtype")
                     if a == "simulate":
-                        p.simulate(n_paths=op["n_paths"], time_horizon=d.maturity)
+                        p.simulate(n_paths=op["n_paths"], time_horizon=d.maturity, **kw)
                     else:
-                        d.simulate(n_paths=op["n_paths"])
+                        d.simulate(n_paths=op["n_paths"], **kw)
                 except Exception as e:
                     if _tolerable(e, half):
                         stats.probe("half_tolerated_exception")
